@@ -245,6 +245,10 @@ def nonlinear_population(rng, thorough=False):
     sq = odl.uniform_discr([-1, -1], [1, 1], (6, 6))
     yield 'RayTransform/skimage', lambda: odl.tomo.RayTransform(sq, odl.tomo.parallel_beam_geometry(sq, 5), impl='skimage')
     yield 'RayTransform.adjoint/skimage', lambda: odl.tomo.RayTransform(sq, odl.tomo.parallel_beam_geometry(sq, 5), impl='skimage').adjoint
+    # complex spaces: real and imaginary parts are transformed separately by a wrapper
+    sqc = odl.uniform_discr([-1, -1], [1, 1], (6, 6), dtype=complex)
+    yield 'RayTransform/skimage/complex', lambda: odl.tomo.RayTransform(sqc, odl.tomo.parallel_beam_geometry(sqc.real_space, 5), impl='skimage')
+    yield 'RayTransform.adjoint/skimage/complex', lambda: odl.tomo.RayTransform(sqc, odl.tomo.parallel_beam_geometry(sqc.real_space, 5), impl='skimage').adjoint
 
 
 def functional_recipes(rng, thorough=False):
